@@ -184,7 +184,8 @@ fn cell_lines(sec: &str, date: NaiveDate, c: &Cell, r: &Render, out: &mut Vec<Tr
                 let h = q.div(two);
                 // equal total consideration: h(p-d) + h(p+d) = q p ; d < p keeps prices positive
                 let d = if Rat::ONE.lt(p) { Rat::ONE } else { p.div(two) };
-                out.push(mk(h, p.sub(d), f));
+                // the fees go with the dearer fill, so the two fills never cost the same per share
+                out.push(mk(h, p.sub(d), Rat::ZERO));
                 if fills == Fills::HalvesSeparated {
                     out.push(Transaction {
                         date,
@@ -196,7 +197,7 @@ fn cell_lines(sec: &str, date: NaiveDate, c: &Cell, r: &Render, out: &mut Vec<Tr
                         },
                     });
                 }
-                out.push(mk(h, p.add(d), Rat::ZERO));
+                out.push(mk(h, p.add(d), f));
             }
         }
     };
